@@ -766,7 +766,7 @@ Definition deps_ready (s : sources) (b : bstate) (i : nat) (ds : list nat) : Pro
 Lemma deps_ready_ideal s b i : i <= length (s_nodes s) -> forall ds dh,
   deps_ready s b i ds -> dep_hashes s b ds = Some dh ->
   exists deps, ideal_deps s (ideal_upto H s i) ds = Some deps /\
-    dh = map (fun e => i_ohash (snd e)) deps /\
+    dh = map (fun e => dep_contrib (fst e) (i_ohash (snd e))) deps /\
     Forall (dep_src s i) deps /\ Forall (dep_files (w_ws (b_world b))) deps.
 Proof.
   intros Hi. induction ds as [|d ds IH]; intros dh Hready Hdh; cbn [dep_hashes] in Hdh.
